@@ -102,6 +102,7 @@ type Backend struct {
 	ActiveConnections int32        // Number of active connections
 	Weight            int          // Weight for weighted load balancing strategies
 	Mutex             sync.RWMutex // Mutex for thread-safe operations
+	connMu            sync.Mutex   // orders a change of ActiveConnections with its publication to the metrics
 }
 
 // healthChecker manages health checks for backends
@@ -717,11 +718,20 @@ func (lb *LoadBalancer) findHealthyBackend(r *http.Request) *Backend {
 	return nil
 }
 
+// trackConnections changes a backend's in-flight gauge and publishes the new value as one
+// step: two requests finishing together could otherwise publish their values in the wrong
+// order and leave the metrics reporting a connection while nothing is in flight
+func (lb *LoadBalancer) trackConnections(backend *Backend, delta int32) {
+	backend.connMu.Lock()
+	defer backend.connMu.Unlock()
+	n := atomic.AddInt32(&backend.ActiveConnections, delta)
+	lb.metricsCollector.UpdateBackendConnections(backend.Name, n)
+}
+
 // proxyRequest forwards the request to a backend and handles the response
 func (lb *LoadBalancer) proxyRequest(backend *Backend, w http.ResponseWriter, r *http.Request, startTime time.Time) error {
 	// Track the active connection
-	backend.IncrementConnections()
-	lb.metricsCollector.UpdateBackendConnections(backend.Name, backend.GetActiveConnections())
+	lb.trackConnections(backend, 1)
 
 	// Create a custom response writer to capture the status code
 	rw := &responseWriter{
@@ -733,8 +743,7 @@ func (lb *LoadBalancer) proxyRequest(backend *Backend, w http.ResponseWriter, r 
 	// handler (it panics with http.ErrAbortHandler if the backend fails mid-body)
 	completed := false
 	defer func() {
-		backend.DecrementConnections()
-		lb.metricsCollector.UpdateBackendConnections(backend.Name, backend.GetActiveConnections())
+		lb.trackConnections(backend, -1)
 		if !completed {
 			// aborted exchange: the backend failed mid-response. Send on what it did
 			// send (status, headers, partial body) before net/http drops the
